@@ -153,6 +153,10 @@ func makePlaintextRedirects(allConfigs []*SiteConfig) []*SiteConfig {
 	for i, cfg := range allConfigs {
 		if cfg.TLS.Enabled &&
 			!cfg.TLS.NoRedirect &&
+			// an explicitly-HTTP site keeps serving plain HTTP even if its
+			// block contains tls (MakeServers disables TLS for it), so there
+			// is nothing to redirect to
+			cfg.Addr.Scheme != "http" && cfg.Addr.Port != httpPort &&
 			!hostHasOtherPort(allConfigs, i, httpPort) &&
 			(cfg.Addr.Port == httpsPort || !hostHasOtherPort(allConfigs, i, httpsPort)) {
 			allConfigs = append(allConfigs, redirPlaintextHost(cfg))
